@@ -9,6 +9,8 @@
 //   path.operator    the level-0 matrix held by the solver, expanded to scalars, == the scalar matrix (exact, dyadic values)
 //   path.truthful    |reported - true| <= bound; true = ||f - A x||/||f|| in long double from the scalar arrays;
 //                    bound = 32 u (iters+2) sqrt(n) kappa2(A) (1 + ||A||2 max(||x0||,||x||)/||f||) + 1e-12 reported  (DESIGN C01/FA; SVD by Eigen)
+//                    judged on the full run unless both values are below tol (then only path.tol matters), and on an early-stopped
+//                    run (maxiter = 2: path.truthful_early) where the bound applies as derived
 //   path.tol         reported < 1e-8  =>  true <= 1e-8 (1+1e-6) + bound
 //   path.iters       iters <= maxiter (+L-1 for bicgstabl)
 //   path.solves      the scalar reference formulation converged (reported and true residual < tol) but this formulation did not
@@ -51,6 +53,7 @@ struct Sys {
     std::string descr;
     sg::Crs<double> A;
     bool sym = false;
+    bool full_rank_coupling = false;   // measured: every stored off-diagonal b x b block has rank b
     bool have_sv = false; sg::SvdInfo sv;
     std::vector<double> f;
     ld fn = 0;
@@ -59,7 +62,15 @@ struct Sys {
 
 static std::vector<Sys> systems_for(int b, bool T) {
     std::vector<Sys> out;
-    auto add = [&](const std::string &id, const std::string &descr, sg::Crs<double> A) { Sys s; s.id = id; s.descr = descr; s.A = std::move(A); s.sym = c13::symmetric(s.A); out.push_back(std::move(s)); };
+    auto add = [&](const std::string &id, const std::string &descr, sg::Crs<double> A) {
+        Sys s; s.id = id; s.descr = descr; s.A = std::move(A); s.sym = c13::symmetric(s.A);
+        auto D = sg::dense(s.A); int nn = s.A.n / b; s.full_rank_coupling = true;
+        for (int I = 0; I < nn; ++I) for (int J = 0; J < nn; ++J) if (I != J) {
+            Eigen::MatrixXd Bk = D.block(I * b, J * b, b, b);
+            if (Bk.isZero(0)) continue;
+            if (Eigen::FullPivLU<Eigen::MatrixXd>(Bk).rank() < b) s.full_rank_coupling = false;
+        }
+        out.push_back(std::move(s)); };
     // (a) structurally incomplete blocks: all 64 full-diagonal 3-node patterns x fill schemes, nonsymmetric dominant values;
     //     the 8 symmetric node patterns x fill schemes with SPD values
     for (uint32_t off = 0; off < 64; ++off) {
@@ -115,11 +126,19 @@ static bool allowed_breakdown(const std::string &w) { return w.find("Zero rho") 
 static bool unsupported(const std::string &w) { return w.find("not supported") != std::string::npos; }
 
 static std::string refconvstr(const Out &ref, bool conv) { return std::string(vf::KS() << "ref " << (conv ? "converged" : "not converged") << " its=" << ref.iters << " res=" << ref.resid); }
-static void judge(const std::string &key, const std::string &tag, Sys &S, const Req &rq, const Out &o, const Out &ref, bool ref_converged) {
+static void judge(const std::string &key, const std::string &subtag, Sys &S, const Req &rq, const Out &o, const Out &ref, bool ref_converged) {
+    // sub-check names carry the call form (".A" = S(A,rhs,x)); the vacuity counters do not
+    const std::string tag = (subtag.size() > 2 && subtag.compare(subtag.size() - 2, 2, ".A") == 0) ? subtag.substr(0, subtag.size() - 2) : subtag;
     const std::string in = vf::KS() << " :: form=" << (rq.form ? "S(A,rhs,x)" : "S(rhs,x)") << " " << rq.coarsening << "+" << rq.relax << "+" << rq.solver << " :: " << S.descr << " A=" << sg::show(S.A);
-    if (!o.ran) { vf::count("skipped." + tag); return; }
+    if (!o.ran) { vf::count("skipped_not_offered_by_path"); return; }
     vf::count("runs." + tag);
+    // smoothed_aggr_emin: the energy-minimising prolongation P = P_tent - D^-1 A P_tent Omega loses rank (singular / garbage coarse
+    // operator, in the scalar formulation too) on non-symmetric matrices and, with matrix-valued Omega, when a coupling block is rank
+    // deficient (a direction in which the nodes of an aggregate are uncoupled).  Outside "symmetric with full-rank couplings" only the
+    // operator and iteration-count clauses are judged for this coarsening.
+    const bool emin_nj = rq.coarsening == "smoothed_aggr_emin" && !(S.sym && S.full_rank_coupling);
     if (o.threw) {
+        if (emin_nj && !unsupported(o.what) && o.what.find("HARNESS") == std::string::npos) { vf::count("emin_not_judged." + tag); return; }
         if (unsupported(o.what)) { vf::count("unsupported." + tag); return; }
         if (o.what.find("HARNESS") != std::string::npos) { vf::fail("harness.param", key, o.what + in); return; }
         if (allowed_breakdown(o.what)) { vf::count("breakdown_exception." + tag); return; }
@@ -127,17 +146,18 @@ static void judge(const std::string &key, const std::string &tag, Sys &S, const 
         // a scalar coarsening (ruge_stuben) under a formulation that converts every scalar level to b x b blocks (as_block, hybrid):
         // the number of C-points need not be a multiple of b; amgcl refuses with a precondition, which is a clean outcome
         if (rq.coarsening == "ruge_stuben" && o.what.find("not divisible by block size") != std::string::npos) { vf::count("ruge_stuben_level_not_divisible." + tag); return; }
-        cfail("path.exception." + tag, key, "exception '" + o.what + "'" + (ref.threw ? " (scalar reference threw '" + ref.what + "')" : " (scalar reference did not throw)") + in);
+        cfail("path.exception." + subtag, key, "exception '" + o.what + "'" + (ref.threw ? " (scalar reference threw '" + ref.what + "')" : " (scalar reference did not throw)") + in);
         return;
     }
     if (o.levels >= 2) vf::count("levels_ge_2." + tag);
-    if (!o.opdiff.empty()) cfail("path.operator." + tag, key, o.opdiff + in);
+    if (!o.opdiff.empty()) cfail("path.operator." + subtag, key, o.opdiff + in);
     size_t cap = (size_t)rq.maxiter + (rq.solver == "bicgstabl" ? 1 : 0);   // default L = 2
-    if (o.iters > cap) cfail("path.iters." + tag, key, vf::KS() << "iters=" << o.iters << " maxiter=" << rq.maxiter << in);
+    if (o.iters > cap) cfail("path.iters." + subtag, key, vf::KS() << "iters=" << o.iters << " maxiter=" << rq.maxiter << in);
+    if (emin_nj) { vf::count("emin_not_judged." + tag); return; }
     bool fin = all_finite(o.x) && std::isfinite(o.resid);
     if (!fin) {
         vf::count("nonfinite." + tag); logev("NONFINITE", tag, key, ref.threw ? "ref threw " + ref.what : refconvstr(ref, ref_converged));
-        if (ref_converged) cfail("path.solves." + tag, key, vf::KS() << "non-finite result (reported " << o.resid << ") while the scalar formulation converged (" << ref.iters << " its, " << ref.resid << ")" << in);
+        if (ref_converged) cfail("path.solves." + subtag, key, vf::KS() << "non-finite result (reported " << o.resid << ") while the scalar formulation converged (" << ref.iters << " its, " << ref.resid << ")" << in);
         return;
     }
     ld tr = truth(S.A, S.f, o.x);
@@ -146,13 +166,32 @@ static void judge(const std::string &key, const std::string &tag, Sys &S, const 
     // a run that ended above its starting residual (x0 = 0: relative residual 1) returned no solution and claims none; the bound
     // below is in terms of max(||x0||,||x||) and does not cover the intermediate growth of a diverging BiCGStab-type recurrence
     if (o.resid > 1 || tr > 1) { vf::count("diverged_not_judged_for_truthfulness." + tag); logev("DIVERGED", tag, key, vf::KS() << "reported=" << o.resid << " true=" << (double)tr << " " << refconvstr(ref, ref_converged)); }
-    else if (!(diff <= bd)) cfail("path.truthful." + tag, key, vf::KS() << "reported=" << o.resid << " true=" << (double)tr << " |diff|=" << (double)diff << " > bound=" << (double)bd << " iters=" << o.iters << " kappa=" << S.sv.kappa << in);
-    else if (o.resid < 1e-8 && !(tr <= 1e-8L * (1 + 1e-6L) + bd)) cfail("path.tol." + tag, key, vf::KS() << "reported=" << o.resid << " < tol but true=" << (double)tr << " bound=" << (double)bd << in);
+    else if (o.resid < 1e-8 && !(tr <= 1e-8L * (1 + 1e-6L) + bd)) cfail("path.tol." + subtag, key, vf::KS() << "reported=" << o.resid << " < tol but true=" << (double)tr << " bound=" << (double)bd << " iters=" << o.iters << in);
+    else if (!(diff <= bd) && !(o.resid < 1e-8 && tr < 1e-8L)) cfail("path.truthful." + subtag, key, vf::KS() << "reported=" << o.resid << " true=" << (double)tr << " |diff|=" << (double)diff << " > bound=" << (double)bd << " iters=" << o.iters << " kappa=" << S.sv.kappa << in);
+    else if (!(diff <= bd)) vf::count("margin.gap_above_bound_but_both_below_tol");
     else { ld q = bd > 0 ? diff / bd : 0; vf::count(q <= 1e-3L ? "margin.diff_over_bound_le_1e-3" : q <= 1e-1L ? "margin.diff_over_bound_le_1e-1" : "margin.diff_over_bound_le_1"); }
     bool conv = o.resid < 1e-8;
     if (conv) vf::count("converged." + tag);
     if (o.iters >= 2) vf::count("iters_ge_2." + tag);
-    if (ref_converged && !conv) cfail("path.solves." + tag, key, vf::KS() << "not converged: reported=" << o.resid << " true=" << (double)tr << " after " << o.iters << " its; scalar formulation: " << ref.iters << " its, " << ref.resid << in);
+    if (ref_converged && !conv) cfail("path.solves." + subtag, key, vf::KS() << "not converged: reported=" << o.resid << " true=" << (double)tr << " after " << o.iters << " its; scalar formulation: " << ref.iters << " its, " << ref.resid << in);
+}
+
+// early-stopped probe (maxiter = 2): residuals are far above the rounding floor and no history of intermediate iterates exists, so the
+// two-sided bound of DESIGN C01/FA applies as derived; a mis-scaled / stale / wrong-system residual shows as an O(1) discrepancy
+static void judge_early(const std::string &key, const std::string &subtag, Sys &S, const Req &rq, const Out &o) {
+    if (!o.ran || o.threw) return;
+    if (rq.coarsening == "smoothed_aggr_emin" && !(S.sym && S.full_rank_coupling)) return;
+    const std::string tag = (subtag.size() > 2 && subtag.compare(subtag.size() - 2, 2, ".A") == 0) ? subtag.substr(0, subtag.size() - 2) : subtag;
+    const std::string in = vf::KS() << " :: maxiter=2 form=" << (rq.form ? "S(A,rhs,x)" : "S(rhs,x)") << " " << rq.coarsening << "+" << rq.relax << "+" << rq.solver << " :: " << S.descr << " A=" << sg::show(S.A);
+    size_t cap = (size_t)rq.maxiter + (rq.solver == "bicgstabl" ? 1 : 0);
+    if (o.iters > cap) cfail("path.iters." + subtag, key, vf::KS() << "iters=" << o.iters << " maxiter=" << rq.maxiter << in);
+    if (!all_finite(o.x) || !std::isfinite(o.resid)) { vf::count("early.nonfinite." + tag); return; }
+    ld tr = truth(S.A, S.f, o.x);
+    ld bd = bound(o.iters, S.A.n, S.sv, sg::norm2_ld(rq.x0), sg::norm2_ld(o.x), S.fn, o.resid);
+    ld diff = fabsl((ld)o.resid - tr);
+    vf::count(tr > 1e-6L ? "early.residual_above_1e-6" : "early.residual_below_1e-6");
+    if (o.resid > 1 || tr > 1) { vf::count("early.diverged_not_judged." + tag); return; }
+    if (!(diff <= bd)) cfail("path.truthful_early." + subtag, key, vf::KS() << "reported=" << o.resid << " true=" << (double)tr << " |diff|=" << (double)diff << " > bound=" << (double)bd << " iters=" << o.iters << " kappa=" << S.sv.kappa << in);
 }
 
 int main(int argc, char **argv) {
@@ -169,7 +208,8 @@ int main(int argc, char **argv) {
             size_t ncfg = 0;
             for (auto &S : sys) {
                 std::vector<std::string> solvers = S.sym ? std::vector<std::string>{"cg", "bicgstab", "gmres"} : std::vector<std::string>{"bicgstab", "gmres"};
-                if (T) { solvers.push_back("idrs"); solvers.push_back("lgmres"); solvers.push_back("fgmres"); solvers.push_back("bicgstabl"); solvers.push_back("richardson"); }
+                // idrs (recursive residual gap: C01's subject) and richardson (rate = rho(I - BA): C02's subject) are left to those checks
+                if (T) { solvers.push_back("lgmres"); solvers.push_back("fgmres"); solvers.push_back("bicgstabl"); }
                 int ci = 0;
                 for (auto &c : coars) for (auto &rl : relax) for (auto &sv : solvers) {
                     ++ci;
@@ -191,10 +231,13 @@ int main(int argc, char **argv) {
                         // single-precision preconditioner: only the documented call form S(A, rhs, x) with the user's double-precision
                         // matrix; S(rhs, x) would iterate on the preconditioner's single-precision copy of the matrix
                         if (form == 0 && p.name.find("mixed") != std::string::npos) continue;
-                        rq.form = form;
+                        rq.form = form; rq.maxiter = 100;
                         Out o = p.run(rq);
                         if (o.ran && !o.threw && (o.levels >= 2 || o.iters >= 2)) any2 = true;
-                        judge(key, p.btype + std::to_string(b) + "." + p.name + (form ? ".A" : ""), S, rq, o, ref, refconv);
+                        const std::string subtag = p.btype + std::to_string(b) + "." + p.name + (form ? ".A" : "");
+                        judge(key, subtag, S, rq, o, ref, refconv);
+                        if (o.ran && !o.threw && o.iters > 2) { rq.maxiter = 2; Out oe = p.run(rq); judge_early(key, subtag, S, rq, oe); rq.maxiter = 100; }
+                        else if (o.ran && !o.threw) { judge_early(key, subtag, S, rq, o); }      // the full run stopped within 2 iterations: it is its own early probe
                     }
                     if (any2) vf::nontrivial(vf::hstr(key));
                 }
